@@ -2,6 +2,7 @@ package main
 
 import (
 	"fmt"
+	"go/token"
 	"sort"
 	"strings"
 
@@ -227,5 +228,94 @@ func c01H2BodyCopied(c *Ctx) {
 	}
 	if n < 2 {
 		c.Unresolved("C01.R7", "http2 handleFrame functions")
+	}
+}
+
+// c01ReadBytesDelivered (R8): what a read returned is handed to the filters even when the read also reported the end.
+// A Read may return n > 0 together with io.EOF (TLS does when close_notify is already buffered behind the last record).
+// Those n bytes are "the bytes a peer sent immediately before closing": connection.doRead must pass them on (onRead)
+// before the read loop closes the connection. Clause: every return of doRead reachable from ReadOnce without passing
+// onRead is excused by a dominating fact: no bytes were read (n == 0), the connection is already closed (closed == 1), or
+// the error is a real failure (err != io.EOF).
+func c01ReadBytesDelivered(c *Ctx) {
+	fn := c.M("pkg/network", "connection", "doRead")
+	if fn == nil {
+		c.Unresolved("C01.R8", "pkg/network.connection.doRead")
+		return
+	}
+	reads := callsIn(fn, false, func(cc *ssa.CallCommon) bool { return methodName(cc) == "ReadOnce" })
+	if len(reads) != 1 {
+		c.Fail("C01.R8", funcKey(fn)+":read", fn.Pos(), fmt.Sprintf("expected one ReadOnce call in doRead, found %d", len(reads)))
+		return
+	}
+	rd := reads[0].Instr
+	var n, rerr ssa.Value
+	for _, r := range refs(rd.(ssa.Value)) {
+		if ex, ok := r.(*ssa.Extract); ok {
+			if ex.Index == 0 {
+				n = ex
+			} else {
+				rerr = ex
+			}
+		}
+	}
+	isOnRead := func(in ssa.Instruction) bool {
+		ci, ok := in.(ssa.CallInstruction)
+		return ok && methodName(ci.Common()) == "onRead"
+	}
+	isEOF := func(v ssa.Value) bool {
+		u, ok := v.(*ssa.UnOp)
+		if !ok {
+			return false
+		}
+		g, ok := u.X.(*ssa.Global)
+		return ok && g.Name() == "EOF" && g.Pkg != nil && g.Pkg.Pkg.Path() == "io"
+	}
+	// the error variable may be the named result (spilled or phi): accept the Extract or anything it flows into by store/phi
+	isErr := func(v ssa.Value) bool {
+		if v == rerr {
+			return true
+		}
+		if u, ok := v.(*ssa.UnOp); ok {
+			if al, ok := u.X.(*ssa.Alloc); ok {
+				for _, r := range refs(al) {
+					if st, ok := r.(*ssa.Store); ok && st.Addr == ssa.Value(al) && st.Val == rerr {
+						return true
+					}
+				}
+			}
+		}
+		return false
+	}
+	cnt := 0
+	for _, in := range instrsWhere(fn, isReturn) {
+		ret := in
+		if existsPath(fn, rd, func(x ssa.Instruction) bool { return x == ret }, isOnRead) == nil {
+			continue
+		}
+		cnt++
+		excuse := ""
+		for _, g := range guardsAt(ret.Block()) {
+			switch x := g.Cond.(type) {
+			case *ssa.BinOp:
+				if k, isK := constInt(x.Y); isK && k == 0 && x.X == n && ((x.Op == token.EQL && g.True) || (x.Op == token.NEQ && !g.True)) {
+					excuse = "no bytes were read"
+				}
+				if k, isK := constInt(x.Y); isK && k == 1 && ((x.Op == token.EQL && g.True) || (x.Op == token.NEQ && !g.True)) {
+					if call, isC := x.X.(*ssa.Call); isC && isAtomicCall(call.Common(), "Load") {
+						if _, f, _, okf := fieldAddrInfo(call.Common().Args[0]); okf && f == "closed" {
+							excuse = "the connection is already closed"
+						}
+					}
+				}
+				if ((isErr(x.X) && isEOF(x.Y)) || (isErr(x.Y) && isEOF(x.X))) && ((x.Op == token.NEQ && g.True) || (x.Op == token.EQL && !g.True)) {
+					excuse = "a real read failure (err != io.EOF)"
+				}
+			}
+		}
+		c.Check("C01.R8", fmt.Sprintf("%s:return-without-delivery#%d", funcKey(fn), cnt), ret.Pos(), excuse != "", "returns without onRead only when "+excuse, "doRead can return without handing the bytes it just read to the read filters although the read may have returned data together with io.EOF (a TLS peer that closes right after its last write): the last bytes of the stream are dropped and the other side is closed without them")
+	}
+	if cnt < 2 {
+		c.Unresolved("C01.R8", "early returns of doRead (expected the closed / no-bytes / failure returns)")
 	}
 }
